@@ -130,7 +130,8 @@ pub const D_COORD: u32 = 16; // hold coordinators between publish and notify unt
 pub const D_WAIT: u32 = 32; // hold a waiter before park until a notify is issued
 pub const D_CACHE: u32 = 64; // hold a cache filler between fetch and insert until a commit is published
 pub const D_AFTER_NOTIFY: u32 = 256; // hold a notifier after notify() until the waiter parks again
-pub const D_FINISH_AT_HEAD: u32 = 128; // hold a finished attempt until the commit boundary reaches its tx
+pub const D_FINISH_AT_HEAD: u32 = 128;
+pub const D_ESTIMATE_REWIND: u32 = 512; // hold a failing validator / a rewinder between its steps until another validation ends // hold a finished attempt until the commit boundary reaches its tx
 
 impl Profile {
     pub fn quiet() -> Self {
@@ -184,6 +185,10 @@ pub struct Obs {
     pub progress_marks: AtomicU64,
     /// live scheduler threads by role (index 1 worker, 2 finality, 3 commit)
     pub alive: [AtomicU64; 4],
+    /// scheduler threads ever started in this run, by role
+    pub started: [AtomicU64; 4],
+    /// per-thread liveness slots for the stall detector (index = observer thread id mod NBUF)
+    pub tslots: Vec<ThreadSlot>,
     fin_examined: Vec<AtomicU64>,
     rewinds: AtomicU64,
     validations_done: AtomicU64,
@@ -193,6 +198,15 @@ pub struct Obs {
     pub holds: AtomicU64,
     pub hold_hits: AtomicU64,
     pub delays: AtomicU64,
+}
+
+/// What one scheduler thread is doing, as far as the stall detector needs to know.
+pub struct ThreadSlot {
+    /// 0 = not a live scheduler thread, else the role code
+    pub role: AtomicU32,
+    pub parked: AtomicBool,
+    /// iterations of the `next()` spin loop by this thread
+    pub spins: AtomicU64,
 }
 
 thread_local! {
@@ -227,6 +241,8 @@ pub fn obs() -> &'static Obs {
         exec_begins: AtomicU64::new(0),
         progress_marks: AtomicU64::new(0),
         alive: [AtomicU64::new(0), AtomicU64::new(0), AtomicU64::new(0), AtomicU64::new(0)],
+        started: [AtomicU64::new(0), AtomicU64::new(0), AtomicU64::new(0), AtomicU64::new(0)],
+        tslots: (0..NBUF).map(|_| ThreadSlot { role: AtomicU32::new(0), parked: AtomicBool::new(false), spins: AtomicU64::new(0) }).collect(),
         fin_examined: (0..MAX_TX).map(|_| AtomicU64::new(0)).collect(),
         rewinds: AtomicU64::new(0),
         validations_done: AtomicU64::new(0),
@@ -298,6 +314,14 @@ impl Obs {
         }
         for p in &self.alive {
             p.store(0, Relaxed);
+        }
+        for p in &self.started {
+            p.store(0, Relaxed);
+        }
+        for t in &self.tslots {
+            t.role.store(0, Relaxed);
+            t.parked.store(false, Relaxed);
+            t.spins.store(0, Relaxed);
         }
         for f in &self.fin_examined {
             f.store(0, Relaxed);
@@ -409,6 +433,16 @@ impl Obs {
                     self.hold(1500, || self.validations_done.load(Relaxed) != before);
                 }
             }
+            Point::ValidateAfterEstimate | Point::RewindAfterTick | Point::RewindAfterLowerTs
+                if bits & D_ESTIMATE_REWIND != 0 =>
+            {
+                // between "writes marked as estimates", "beneficiary entry invalidated", "lower
+                // timestamp published" and "cursor rewound": let another worker validate meanwhile
+                if tl_rand() % 2 == 0 {
+                    let before = self.validations_done.load(Relaxed);
+                    self.hold(1500, || self.validations_done.load(Relaxed) != before);
+                }
+            }
             Point::ExecAfterRun if bits & D_FINISH_AT_HEAD != 0 && a > 0 => {
                 if tl_rand() % 2 == 0 {
                     self.hold(4000, || self.commit_published.load(Relaxed) >= a);
@@ -461,6 +495,7 @@ impl Hooks for Obs {
         }
         if matches!(point, Point::NextLoop) {
             self.spins.fetch_add(1, Relaxed);
+            self.tslots[thread_id(self) as usize % NBUF].spins.fetch_add(1, Relaxed);
             return;
         }
         self.points.fetch_add(1, Relaxed);
@@ -496,6 +531,11 @@ impl Hooks for Obs {
                 };
                 TL_ROLE.with(|r| r.set(code));
                 self.alive[code as usize].fetch_add(1, Relaxed);
+                self.started[code as usize].fetch_add(1, Relaxed);
+                let slot = &self.tslots[thread_id(self) as usize % NBUF];
+                slot.parked.store(false, Relaxed);
+                slot.spins.store(0, Relaxed);
+                slot.role.store(code as u32, Relaxed);
             }
             Event::ThreadEnd(role) => {
                 let code = match role {
@@ -504,6 +544,7 @@ impl Hooks for Obs {
                     Role::Commit => 3,
                 };
                 self.alive[code].fetch_sub(1, Relaxed);
+                self.tslots[thread_id(self) as usize % NBUF].role.store(0, Relaxed);
             }
             Event::FinalityBlocked { idx, .. } | Event::Finality { idx, .. } if idx < MAX_TX => {
                 self.fin_examined[idx].fetch_add(1, Relaxed);
@@ -525,10 +566,12 @@ impl Hooks for Obs {
                 self.park_enters.fetch_add(1, Relaxed);
                 let role = TL_ROLE.with(|r| r.get()) as usize;
                 self.parked[role & 3].fetch_add(1, Relaxed);
+                self.tslots[thread_id(self) as usize % NBUF].parked.store(true, Relaxed);
             }
             Event::ParkExit { .. } => {
                 let role = TL_ROLE.with(|r| r.get()) as usize;
                 self.parked[role & 3].fetch_sub(1, Relaxed);
+                self.tslots[thread_id(self) as usize % NBUF].parked.store(false, Relaxed);
             }
             Event::ExecBegin { .. } => {
                 self.in_exec.fetch_add(1, Relaxed);
